@@ -198,6 +198,33 @@ def check_relabel(F, st, P3):
         for s in blk.stmts:
             if s.k == 'assign' and effects.field_path(s.place) == 'lifecycle' and s.place.l in st.recv_locals:
                 relabel_cur.add(blk.i)
+    # the same relabel written as a plain loop: `for m in queue.iter_mut() { if m.lifecycle == a { m.lifecycle = b } }`
+    loops = cfg.loops()
+    E2 = ExprBuilder(cfg, fold_named=True)
+    for blk in body.calls():
+        t = blk.term
+        if t.callee.path != 'std::iter::Iterator::next' or 'vec_deque::IterMut<' not in (t.args[0].ty or '') or 'DltMessage' not in (t.args[0].ty or ''):
+            continue
+        src = E2.operand(t.args[0])
+        ssrc = show(src)
+        inner = [hd for hd, lb in loops.items() if blk.i in lb]
+        if not inner:
+            continue
+        hd = min(inner, key=lambda h: len(loops[h]))
+        lb = loops[hd]
+        writes = [s for x in lb for s in body.blocks[x].stmts if s.k == 'assign' and effects.field_path(s.place) == 'lifecycle']
+        other = [s for x in lb for s in body.blocks[x].stmts if s.k == 'assign' and effects.field_path(s.place) not in (None, 'lifecycle')]
+        if not writes or other:
+            continue
+        whole = re.search(r'VecDeque::iter_mut\(', ssrc) is not None and not re.search(r'Iterator::(skip|take|filter|step_by|skip_while|take_while|nth|peekable|zip)\b', ssrc)
+        # every exit of the loop leaves from the block that tests the result of this next() (the None edge)
+        exits = [(x, y) for x in lb for y in cfg.succ[x] if y not in lb and body.blocks[y].term.k != 'unreachable']
+        nxt_test = set(cfg.succ[blk.i])
+        only_none_exit = all(x in nxt_test or x == blk.i for (x, y) in exits)
+        if whole and only_none_exit:
+            relabel_q.add(blk.i)
+        else:
+            partial.append((blk, ssrc + ('' if only_none_exit else ' (loop left early)')))
     sinks = set(st.blocks_with('RECV_IN')) | set(st.blocks_with('SEND')) | set(st.blocks_with('STORE')) | set(cfg.exits)
 
     def block_effect(b, facts):
@@ -266,9 +293,32 @@ def check_unpublish(F, st, P4):
         merged_of[m] = re.sub(r'[^A-Za-z0-9_]', '', merged.split('.')[0])
     # membership tests: block -> (dest local, name mentioned)
     test_dest = {}
+    def one_step(op, depth=0):
+        # `let merged_id = lc2.id; .. contains(&merged_id)` names the same id: resolve a single-definition local one step
+        # (through the borrow) to the place it was copied from, keeping the names of that place
+        if op.place is None or depth > 6:
+            return ''
+        if not op.place.is_local:
+            return show(E.operand(op))
+        sd = cfg.single_def(op.place.l)
+        if sd is None or sd[1] == 'call':
+            return ''
+        rv = sd[2].rv
+        if rv['k'] in ('ref', 'rawptr'):
+            from facts import Place
+            pl = Place(rv['p'])
+            if pl.is_local or all(e['k'] == 'deref' for e in pl.p):
+                return one_step(Operand({'k': 'copy', 'p': {'l': pl.l, 'p': [], 't': ''}}), depth + 1)
+            return show(E.place(pl))
+        if rv['k'] == 'use':
+            o = Operand(rv['o'])
+            if o.place is not None and not o.place.is_local:
+                return show(E.operand(o))
+            return one_step(o, depth + 1)
+        return ''
     for c in tests:
         ct = body.blocks[c].term
-        arg = show(E.operand(ct.args[1]))
+        arg = show(E.operand(ct.args[1])) + ' ' + one_step(ct.args[1])
         if ct.dest.is_local:
             test_dest[ct.dest.l] = arg
 
